@@ -73,6 +73,14 @@ def run(ctx):
                         if n_mm <= 3:
                             rep.violation('correspondence', {'property': 'C16', 'kind': 'model-vs-implementation', 'seed': ctx.seed, 'case': c['id'],
                                                              'mappings': c['maps'], 'request': q, 'implementation': ans, 'model': b[k], 'line': c['line'][:9000]})
+                elif q[0] == 'ninc' and q[3].endswith('nest2_m.hpp'):
+                    # the same relative spelling in two included files of different directories: each time the neighbour
+                    text = bytes.fromhex(ans[2:]).decode('latin-1') if ans.startswith('T=') else ''
+                    seq = re.findall(r'gx = (71\d\d);', text)
+                    if seq != ['7101', '7102', '7101']:
+                        bad = {'request': q, 'expected': 'sub/defs.hpp, sub/deep/defs.hpp, sub/defs.hpp (each include resolved beside the including file)',
+                               'implementation': (text or ans)[:400]}
+                        break
                 elif q[0] == 'ninc':
                     # an include inside an included file is resolved from that file's place
                     if not ans.startswith('T=') or 'gx = 7001;'.encode().hex() not in ans or 'gx = 7002;'.encode().hex() in ans:
